@@ -10,12 +10,15 @@
 (***************************************************************************)
 EXTENDS Naturals, Sequences, FiniteSets, TLC, Json
 
+P == INSTANCE Pipeline WITH Tier <- "quick", feats <- {}, opts <- 0, pc <- "", todo <- {}
 Bases == {"standalone", "references-sibling", "reexported-by-init", "unanalysed-names"}
 Perturbs == {"add-plain", "add-same-names", "rename-unrelated", "change-unrelated", "remove-unrelated", "permute-own",
-             "reexport-unrelated-same-name"}     \* an unrelated module reuses M's names and the root __init__ re-exports one of *its* classes
+             "reexport-unrelated-same-name",
+             "remove-all-unrelated"}             \* base "feature": M is one declaration form of Pipeline.tla, the rest of the package is the 120 others     \* an unrelated module reuses M's names and the root __init__ re-exports one of *its* classes
 
 (* abstract package: module name -> content version; M is the module under observation, N a module M references, U unrelated *)
-BasePkg(b) == [M |-> 1, N |-> IF b = "references-sibling" THEN 1 ELSE 0, I |-> IF b = "reexported-by-init" THEN 1 ELSE 0, U |-> 0, U2 |-> 0, RI |-> 0, order |-> 1]
+BasePkg(b) == IF b = "feature" THEN [M |-> 1, N |-> 1, I |-> 0, U |-> 1, U2 |-> 0, RI |-> 0, order |-> 1] ELSE
+              [M |-> 1, N |-> IF b = "references-sibling" THEN 1 ELSE 0, I |-> IF b = "reexported-by-init" THEN 1 ELSE 0, U |-> 0, U2 |-> 0, RI |-> 0, order |-> 1]
 WithU(p) == [p EXCEPT !.U = 1]
 Apply(p, k) ==
   CASE k = "add-plain" -> [p EXCEPT !.U = 1]
@@ -24,22 +27,25 @@ Apply(p, k) ==
     [] k = "change-unrelated" -> [p EXCEPT !.U = 2]
     [] k = "remove-unrelated" -> [p EXCEPT !.U = 0]
     [] k = "permute-own" -> [p EXCEPT !.order = 2]
+    [] k = "remove-all-unrelated" -> [p EXCEPT !.U = 0]
     [] k = "reexport-unrelated-same-name" -> [p EXCEPT !.U = 3, !.RI = 1]   \* RI: the root __init__ re-exports a class of U (not of M, not of N)
 StartOf(b, k) == IF k \in {"rename-unrelated", "change-unrelated", "remove-unrelated"} THEN WithU(BasePkg(b)) ELSE BasePkg(b)
 Deps(p) == <<p.M, p.N, p.I>>                       \* what M's stub may depend on
 StubOf(p) == [deps |-> Deps(p), order |-> p.order]  \* the design: a function of Deps and of M's own declaration order
 
-VARIABLES base, kind, pkg, stubA, stubB, pc
-vars == <<base, kind, pkg, stubA, stubB, pc>>
-Init == base \in Bases /\ kind \in Perturbs /\ pkg = StartOf(base, kind) /\ stubA = StubOf(pkg) /\ stubB = StubOf(pkg) /\ pc = "run-a"
-Perturb == pc = "run-a" /\ pkg' = Apply(pkg, kind) /\ pc' = "perturbed" /\ UNCHANGED <<base, kind, stubA, stubB>>
-RunB == pc = "perturbed" /\ stubB' = StubOf(pkg) /\ pc' = "done" /\ UNCHANGED <<base, kind, pkg, stubA>>
+VARIABLES base, kind, feat, pkg, stubA, stubB, pc
+vars == <<base, kind, feat, pkg, stubA, stubB, pc>>
+Init == /\ \/ base \in Bases /\ kind \in Perturbs \ {"remove-all-unrelated"} /\ feat = <<>>
+           \/ base = "feature" /\ kind = "remove-all-unrelated" /\ feat \in P!Features
+        /\ pkg = StartOf(base, kind) /\ stubA = StubOf(pkg) /\ stubB = StubOf(pkg) /\ pc = "run-a"
+Perturb == pc = "run-a" /\ pkg' = Apply(pkg, kind) /\ pc' = "perturbed" /\ UNCHANGED <<base, kind, feat, stubA, stubB>>
+RunB == pc = "perturbed" /\ stubB' = StubOf(pkg) /\ pc' = "done" /\ UNCHANGED <<base, kind, feat, pkg, stubA>>
 Next == Perturb \/ RunB
 Spec == Init /\ [][Next]_vars /\ WF_vars(Next)
 Inv_C18_Local == (pc = "done" /\ kind # "permute-own") => stubB = stubA
 Inv_C18_Permute == (pc = "done" /\ kind = "permute-own") => stubB.deps = stubA.deps
 Live_Done == <>(pc = "done")
-Emit == pc = "done" => PrintT(ToJson([base |-> base, kind |-> kind]))
+Emit == pc = "done" => PrintT(ToJson([base |-> base, kind |-> kind, feat |-> feat]))
 
 (* obs = [base, kind, a, b (digests of M's stub bytes), bagA, bagB (digest of the bag of declaration blocks), headA, headB] *)
 Judge(obs) ==
